@@ -59,11 +59,12 @@ func (c18) Thresholds(tier string) map[string]int64 {
 		"distinct-interleaving-prefixes":            12,
 		"race-detector-enabled-children":            16,
 		"race-canary-reported":                      1,
+		"scripts-with-a-syntax-error-created-concurrently": 20,
 	}
 }
 
 func (c18) Rule() string {
-	return "case = one fresh child process under the race detector (cold ANTLR DFA / prediction-context caches, GOMAXPROCS=16): G in {2, 8, 16, 64} goroutines are released by one barrier; each creates 1-3 runners from different generated programs (parsing concurrently), registers functions and commands and steps them along a PRNG choice policy with PRNG runtime.Gosched() between steps; programs use markup, the random built-ins with seeds, visit counts, variables and commands; every runner runs a raw command whose handler reads its arguments later from a goroutine of its own (they must still be the words written in that runner's script), and every second runner is first restored from ONE snapshot value shared by all goroutines. During the concurrent phase the harness performs no synchronisation of its own (per-goroutine logs with monotonic time stamps, merged afterwards), so that it cannot hide a race. Afterwards the same (program, seed, choice policy) executions are repeated sequentially in another fresh process. Oracle: every concurrent execution has the digest of its sequential reference (elements, errors, final variables) and the parent finds zero race-detector reports with a ysgo/antlr frame in the GORACE log files. Non-trivial: >=2 goroutines each stepping >=1 runner whose steps interleave in the merged log. Distinct by hash of the interleaving prefix."
+	return "case = one fresh child process under the race detector (cold ANTLR DFA / prediction-context caches, GOMAXPROCS=16): G in {2, 8, 16, 64} goroutines are released by one barrier; each creates 1-3 runners from different generated programs (parsing concurrently), registers functions and commands and steps them along a PRNG choice policy with PRNG runtime.Gosched() between steps; programs use markup, the random built-ins with seeds, visit counts, variables and commands; every runner runs a raw command whose handler reads its arguments later from a goroutine of its own (they must still be the words written in that runner's script), every second runner is first restored from ONE snapshot value shared by all goroutines, one script in five carries a planted syntax error (its creation must fail with its own error text while the others are created), and every host writes a property of its own into the attribute maps of each element it was handed (they are its values). During the concurrent phase the harness performs no synchronisation of its own (per-goroutine logs with monotonic time stamps, merged afterwards), so that it cannot hide a race. Afterwards the same (program, seed, choice policy) executions are repeated sequentially in another fresh process. Oracle: every concurrent execution has the digest of its sequential reference (elements, errors, final variables) and the parent finds zero race-detector reports with a ysgo/antlr frame in the GORACE log files. Non-trivial: >=2 goroutines each stepping >=1 runner whose steps interleave in the merged log. Distinct by hash of the interleaving prefix."
 }
 
 func (c18) Assumptions() []string {
@@ -95,6 +96,7 @@ func (p c18) Run(c *core.Ctx) {
 	// everything is generated before the barrier; generation uses no ysgo code
 	jobs := make([][]*job, G)
 	id := 0
+	invalid := 0
 	for g := 0; g < G; g++ {
 		for k := r.Range(1, 3); k > 0; k-- {
 			cfg := gen.DefaultFlow()
@@ -115,6 +117,12 @@ func (p c18) Run(c *core.Ctx) {
 			tag := fmt.Sprintf("w%x", choiceSeed&0xffffff)
 			prog.Nodes[0].Body = append(c18Prelude(tag), prog.Nodes[0].Body...)
 			scripts := hast.Render(prog, hast.L0())
+			if r.Chance(1, 5) {
+				// a script with a syntax error, created while the other goroutines create theirs: its error
+				// (text included) is its own, and nobody else's creation is affected by it
+				scripts[0] = breakSyntax(r, scripts[0])
+				invalid++
+			}
 			// one runner in four is created without a seed (its trace cannot be compared, its creation and
 			// stepping still run under the race detector)
 			seed := []string{"a", "k3", "zz9", "0", "seed", "x1y2", "", ""}[r.Intn(8)]
@@ -177,6 +185,7 @@ func (p c18) Run(c *core.Ctx) {
 	c.Feature("distinct-interleaving-prefixes") // one per child; the parent also counts the distinct set
 	c.FeatureN("goroutines", G)
 	c.FeatureN("runners", id)
+	c.FeatureN("scripts-with-a-syntax-error-created-concurrently", invalid)
 	c.FeatureN("steps", steps)
 	c.FeatureN("runner-switches-in-merged-log", switches)
 	earliestDone := int64(1 << 62)
@@ -244,6 +253,19 @@ func (p c18) Run(c *core.Ctx) {
 	if c.Idx < 3 {
 		c.Sample(map[string]any{"goroutines": G, "runners": id, "steps": steps, "first_48_steps_by_runner_id": strings.Join(prefix, ","), "runner_switches": switches})
 	}
+}
+
+// breakSyntax plants one syntax error in a valid script.
+func breakSyntax(r *core.Rand, s string) string {
+	switch r.Intn(4) {
+	case 0:
+		return strings.Replace(s, "\n===\n", "\n<<endif>>\n===\n", 1)
+	case 1:
+		return strings.Replace(s, "\n---\n", "\n---\n<<set $x to 1 +>>\n", 1)
+	case 2:
+		return strings.Replace(s, "\n---\n", "\n---\n<<if true>>\nnever closed "+fmt.Sprint(r.Intn(1000))+"\n", 1)
+	}
+	return strings.Replace(s, "\n---\n", "\n---\nbad {1 +} line "+fmt.Sprint(r.Intn(1000))+"\n", 1)
 }
 
 // c18Exec is c09Exec with a per-goroutine step log and PRNG Gosched between steps. It performs no
